@@ -1076,9 +1076,9 @@ func (e *Engine) typeAssert(instr *ssa.TypeAssert, x V) V {
 	if !ok {
 		var msg string
 		if itf == nil {
-			msg = fmt.Sprintf("interface conversion: interface is nil, not %s", instr.AssertedType)
+			msg = fmt.Sprintf("interface conversion: %s is nil, not %s", ifaceWord(instr.X.Type()), instr.AssertedType)
 		} else {
-			msg = fmt.Sprintf("interface conversion: interface is %s, not %s", itf.T, instr.AssertedType)
+			msg = fmt.Sprintf("interface conversion: %s is %s, not %s", ifaceWord(instr.X.Type()), itf.T, instr.AssertedType)
 		}
 		panic(targetPanic{e.runtimeError(msg)})
 	}
@@ -1130,3 +1130,13 @@ func (e *Engine) iterNext(fr *frame, it V) V {
 
 // float helpers
 func f64(v V) float64 { return math.Float64frombits(v.N) }
+
+func ifaceWord(t types.Type) string {
+	if it, ok := t.(*types.Interface); ok && it.Empty() {
+		return "interface {}"
+	}
+	if it, ok := types.Unalias(t).(*types.Interface); ok && it.Empty() {
+		return "interface {}"
+	}
+	return types.TypeString(t, nil)
+}
